@@ -27,6 +27,8 @@ TStep ==
      \/ e.op = "Park" /\ Begin(e.c) /\ last'.op = "Park" /\ Shape(e)
      \/ e.op = "Pre" /\ Pre(e.c) /\ last'.res = e.res /\ Shape(e)
      \/ e.op = "End" /\ End(e.c, e.out) /\ Shape(e)
+     \/ e.op = "EndMid" /\ EndMid(e.c, e.out) /\ Shape(e)
+     \/ e.op = "EndFin" /\ Finish(e.c) /\ Shape(e)
      \/ e.op = "Metrics" /\ MetricsOp /\ last'.a = e.a /\ last'.b = e.b /\ last'.res = e.mst /\ Shape(e)
      \/ e.op = "Tick" /\ Tick /\ Shape(e)
 TInit == Init /\ l = 1
